@@ -187,6 +187,7 @@ def replay(inst, hist, stats, texts):
         ren = Renum()
         events, info = [], []
         tbl, tbl_ix = [], {}
+        node_enc = {}
 
         def intern(c):
             """content records are stored once per trace (compression only: TLC looks the records up and compares them)"""
@@ -268,7 +269,13 @@ def replay(inst, hist, stats, texts):
                     stats["sem_unencodable"] += 1
                     stats.setdefault("sem_unencodable_why", {}).setdefault(f"{type(e).__name__}: {e}"[:80], 0)
                     stats["sem_unencodable_why"][f"{type(e).__name__}: {e}"[:80]] += 1
-            info.append({"act": act, "src": s, "arg": arg, "enc": enc, "variant": var[-1] if new is not None else None})
+            # reference of the exact-semantics comparison: the generator's own record at the root and after rebind, the encoding
+            # of the SOURCE node (taken when it was made) further down a chain, so that a defect is reported where it happens
+            ref = None
+            if enc is not None:
+                ref = dict(inst.table["recs"][var[-1]]) if (s == 1 or act == "rebind" or node_enc.get(s) is None) else node_enc[s]
+                node_enc[len(nodes)] = enc
+            info.append({"act": act, "src": s, "arg": arg, "enc": enc, "ref": ref})
             stats["events"] += 1
             stats["act:" + act] += 1
             if exc:
@@ -355,7 +362,7 @@ def run(tier, seed):
             if inst.table is not None:
                 for k, i in enumerate(info):
                     if i["enc"] is not None:
-                        sem_cases.append({"n": inst.table["n"], "a": [dict(inst.table["recs"][i["variant"]])], "bs": [{"b": [i["enc"]], "rel": "exact"}]})
+                        sem_cases.append({"n": inst.table["n"], "a": [i["ref"]], "bs": [{"b": [i["enc"]], "rel": "exact"}]})
                         sem_meta.append((inst, h, k, i["act"]))
     t_replay = time.time() - t0 - t_model
     # ---- negative controls (hand-written) appended to the batch
